@@ -10,10 +10,19 @@ Qed.
 
 Lemma rkey_eqb_eq (a b : rkey) : rkey_eqb a b = true <-> a = b.
 Proof.
-  destruct a as [s n|s k|s k], b as [s' n'|s' k'|s' k']; cbn; try (split; [discriminate|intro H; inversion H]).
+  destruct a as [s n|s k|s k|u s n|u s k], b as [s' n'|s' k'|s' k'|u' s' n'|u' s' k']; cbn;
+    try (split; [discriminate|intro H; inversion H]).
   - rewrite andb_true_iff, !str_eqb_eq. split; [intros [-> ->]; reflexivity|intro H; inversion H; auto].
   - rewrite andb_true_iff, str_eqb_eq, key_eqb_eq. split; [intros [-> ->]; reflexivity|intro H; inversion H; auto].
   - rewrite andb_true_iff, str_eqb_eq, key_eqb_eq. split; [intros [-> ->]; reflexivity|intro H; inversion H; auto].
+  - rewrite !andb_true_iff, !str_eqb_eq. split; [intros [[-> ->] ->]; reflexivity|intro H; inversion H; auto].
+  - rewrite !andb_true_iff, !str_eqb_eq, key_eqb_eq. split; [intros [[-> ->] ->]; reflexivity|intro H; inversion H; auto].
+Qed.
+
+Lemma ukey_eqb_eq (a b : ukey) : ukey_eqb a b = true <-> a = b.
+Proof.
+  destruct a as [[[u s] n] t], b as [[[u' s'] n'] t']. unfold ukey_eqb. rewrite !andb_true_iff, !str_eqb_eq.
+  split; [intros [[[-> ->] ->] ->]; reflexivity|intro H; inversion H; auto].
 Qed.
 
 Lemma alookup_not_None_In {V} k (m : amap V) : alookup k m <> None -> In k (akeys m).
